@@ -193,6 +193,16 @@ class Gen:
 
     def stmt(self, depth, in_loop, top):
         r = self.rng
+        if top and "tuple" in self.f and self.ints and len(self.ints) < 7 and r.random() < 0.2:
+            # tuple DECLARATION of all-new names at top level; the right-hand sides read existing
+            # (possibly re-assigned) variables, so they must be evaluated at this point of setup()
+            n1 = self.new_int()
+            self.ints.append(n1)
+            n2 = self.new_int()
+            self.ints.pop()
+            rhs = [self.int_expr(1), self.int_expr(1)]
+            self.ints += [n1, n2]
+            return ("tuple", [n1, n2], rhs)
         k = r.random()
         if k < 0.22 or not self.ints:
             if top and (not self.ints or (len(self.ints) < 4 and r.random() < 0.5)):
